@@ -122,10 +122,20 @@ def _init_worker(fn_module, fn_name):
     _WORK_FN = getattr(mod, fn_name)
 
 
+CASE_TIMEOUT = float(os.environ.get("VERIF_CASE_TIMEOUT", "90"))
+MAX_HANGS = 6
+
+
 def _run_one(args):
     idx, case = args
     try:
-        return idx, _WORK_FN(case)
+        with alarm(CASE_TIMEOUT):
+            return idx, _WORK_FN(case)
+    except CaseTimeout:
+        return idx, {"hang": True, "violations": [V(
+            "harness/case-did-not-terminate",
+            f"the library did not finish this case within {CASE_TIMEOUT:.0f} s (normal cost: milliseconds "
+            "to seconds)", case=case)]}
     except Exception as e:  # an unexpected exception in the harness or library is never silent
         return idx, {"violations": [V("harness/unexpected-exception",
                                       f"{type(e).__name__}: {e}", case=case,
@@ -154,11 +164,20 @@ class Ctx:
         else:
             cs = chunksize or max(1, len(cases) // (nproc * 8))
             ctx = mp.get_context("fork")
+            res, hangs = [], 0
             with ctx.Pool(nproc, initializer=_init_worker,
                           initargs=(fn.__module__, fn.__name__)) as pool:
-                res = pool.map(_run_one, list(enumerate(cases)), chunksize=cs)
+                for r in pool.imap_unordered(_run_one, list(enumerate(cases)), chunksize=cs):
+                    res.append(r)
+                    hangs += bool(r[1].get("hang"))
+                    if hangs >= MAX_HANGS:  # a hang is already a violation: do not sit out the rest
+                        pool.terminate()
+                        self.capped = (f"aborted after {hangs} cases that did not terminate; "
+                                       f"{len(res)} of {len(cases)} cases completed")
+                        break
             res.sort(key=lambda r: r[0])
-            out = [r[1] for r in res]
+            done = dict(res)
+            out = [done.get(i, {"violations": [], "not_run": True}) for i in range(len(cases))]
         for r in out:
             for v in r.get("violations", ()):
                 self.violations.append(v)
